@@ -32,7 +32,7 @@ def families(tier, seed):
     # the Torch / JAX / Fortran backends' own fixed-step loops and input plumbing (sample k drives step k on every backend)
     from checks import c02 as _c02
     for c in _c02.families(tier, seed):
-        if c["kind"] == "loops" or c["kind"] == "inputs_backend":
+        if c["kind"] in ("loops", "inputs_backend", "inputs_backend_seq"):
             out.append(c)
     return out
 
@@ -71,7 +71,7 @@ def population_input_case(c):
 def case_fn(c):
     if c["kind"] == "population_input":
         return population_input_case(c)
-    if c["kind"] in ("loops", "inputs_backend"):
+    if c["kind"] in ("loops", "inputs_backend", "inputs_backend_seq"):
         from checks import c02 as _c02
         return _c02.dispatch(c)
     return cases.case_fn(c)
